@@ -223,6 +223,169 @@ Qed.
 Theorem rchain_total_refuted : ~ (forall dial conf t, exists n u, rchain dial conf n t = Some u).
 Proof. intros H. destruct (H [] conf_cyc1 TInt) as [n [u Hu]]. rewrite (proj1 (cyc1_diverges n)) in Hu. discriminate. Qed.
 
+(* ---- /repo <sha> (table-override-once): Instance._overridden_types -- a table strategy is not applied again below its own
+        replacement: the keys that already replaced a type on the way to a position are skipped (vis).  With it the
+        rewriting is total for EVERY table (rchain_v_total); tables that do not lead back never meet a key twice, so there
+        rchain_v [] and rchain agree (checked per case by SchemaCorr on chain_ok tables). ---- *)
+Fixpoint smem (k: string) (l: list string) : bool :=
+  match l with [] => false | x :: r => String.eqb x k || smem k r end.
+Definition key_of (t: ty) : option string := match tykey t with Some k => Some k | None => okey t end.
+
+Section ChainV.
+  Variables dial conf : list (string * ov).
+
+  Definition table_ov_v (vis: list string) (t: ty) : option (string * ov) :=
+    match key_of t with
+    | Some k => if smem k vis then None else match table_ov dial conf t with Some o => Some (k, o) | None => None end
+    | None => None
+    end.
+
+  Fixpoint rchain_v (n: nat) (vis: list string) (t: ty) {struct n} : option ty :=
+    match n with
+    | O => None
+    | S n' =>
+        match table_ov_v vis t with
+        | Some (k, OBasic b) => Some b
+        | Some (k, ORet (Some t')) => if ty_same t' t then rdesc (rchain_v n' (k :: vis)) t else rchain_v n' (k :: vis) t'
+        | Some (k, ORet None) => rchain_v n' (k :: vis) TAny
+        | _ => rdesc (rchain_v n' vis) t
+        end
+    end.
+
+  Lemma rchain_v_S n vis t :
+    rchain_v (S n) vis t =
+      match table_ov_v vis t with
+      | Some (k, OBasic b) => Some b
+      | Some (k, ORet (Some t')) => if ty_same t' t then rdesc (rchain_v n (k :: vis)) t else rchain_v n (k :: vis) t'
+      | Some (k, ORet None) => rchain_v n (k :: vis) TAny
+      | _ => rdesc (rchain_v n vis) t
+      end.
+  Proof. reflexivity. Qed.
+
+  Lemma rchain_v_mono n : forall vis t u, rchain_v n vis t = Some u -> rchain_v (S n) vis t = Some u.
+  Proof.
+    induction n as [|n IH]; intros vis t u; [discriminate|].
+    rewrite (rchain_v_S (S n)), (rchain_v_S n).
+    destruct (table_ov_v vis t) as [[k [|b|[t'|]|]]|]; auto;
+      try (apply rdesc_mono; intros x y; apply IH).
+    destruct (ty_same t' t); [apply rdesc_mono; intros x y; apply IH|apply IH].
+  Qed.
+
+  Lemma rchain_v_mono_le n m vis t u : n <= m -> rchain_v n vis t = Some u -> rchain_v m vis t = Some u.
+  Proof. induction 1 as [|m Hle IH]; [auto|]. intros H. apply rchain_v_mono. exact (IH H). Qed.
+
+  (* the keys not yet used on the path: every chained step uses one up *)
+  Definition allkeys : list string := map fst (dial ++ conf).
+  Definition unvisited (vis: list string) : nat := List.length (filter (fun k => negb (smem k vis)) allkeys).
+
+  Lemma filter_len_le (f g: string -> bool) l : (forall x, f x = true -> g x = true) ->
+    List.length (filter f l) <= List.length (filter g l).
+  Proof.
+    intros H. induction l as [|x r IH]; simpl; [lia|].
+    destruct (f x) eqn:Ef; [rewrite (H _ Ef); simpl; lia|destruct (g x); simpl; lia].
+  Qed.
+
+  Lemma filter_len_lt (f g: string -> bool) l k : (forall x, f x = true -> g x = true) -> In k l -> f k = false -> g k = true ->
+    List.length (filter f l) < List.length (filter g l).
+  Proof.
+    intros H. induction l as [|x r IH]; simpl; [contradiction|]. intros [E|Hin] Hf Hg.
+    - subst x. rewrite Hf, Hg. simpl. assert (L := filter_len_le f g r H). lia.
+    - specialize (IH Hin Hf Hg). destruct (f x) eqn:Ef; [rewrite (H _ Ef); simpl; lia|destruct (g x); simpl; lia].
+  Qed.
+
+  Lemma smem_cons k x vis : smem x (k :: vis) = String.eqb k x || smem x vis.
+  Proof. reflexivity. Qed.
+
+  Lemma unvisited_decr k vis : In k allkeys -> smem k vis = false -> unvisited (k :: vis) < unvisited vis.
+  Proof.
+    intros Hin Hm. unfold unvisited. apply (filter_len_lt _ _ allkeys k); auto.
+    - intros x. rewrite smem_cons. destruct (String.eqb k x); simpl; [discriminate|auto].
+    - rewrite smem_cons, String.eqb_refl. reflexivity.
+    - rewrite Hm. reflexivity.
+  Qed.
+
+  Lemma lookup_in_fst {A} k (l: list (string * A)) v : lookup k l = Some v -> In k (map fst l).
+  Proof.
+    induction l as [|[k' x] r IH]; simpl; [discriminate|]. destruct (String.eqb k' k) eqn:E; [|auto].
+    intros _. left. apply String.eqb_eq. exact E.
+  Qed.
+
+  Lemma first_ser_key k o : first_ser [lookup k dial; lookup k conf] = Some o -> In k allkeys.
+  Proof.
+    unfold allkeys. rewrite map_app, in_app_iff. cbn [first_ser].
+    destruct (lookup k dial) as [od|] eqn:Ed.
+    - intros _. left. exact (lookup_in_fst _ _ _ Ed).
+    - destruct (lookup k conf) as [oc|] eqn:Ec; [|discriminate]. intros _. right. exact (lookup_in_fst _ _ _ Ec).
+  Qed.
+
+  Lemma table_ov_v_key vis t k o : table_ov_v vis t = Some (k, o) -> In k allkeys /\ smem k vis = false.
+  Proof.
+    unfold table_ov_v, key_of, table_ov.
+    destruct (tykey t) as [k1|].
+    - destruct (smem k1 vis) eqn:Em; [discriminate|].
+      destruct (first_ser [lookup k1 dial; lookup k1 conf]) as [o1|] eqn:Ef; [|discriminate].
+      intros E; inversion E; subst. split; [exact (first_ser_key _ _ Ef)|exact Em].
+    - destruct (okey t) as [k1|]; [|discriminate].
+      destruct (smem k1 vis) eqn:Em; [discriminate|].
+      destruct (first_ser [lookup k1 dial; lookup k1 conf]) as [o1|] eqn:Ef; [|discriminate].
+      intros E; inversion E; subst. split; [exact (first_ser_key _ _ Ef)|exact Em].
+  Qed.
+
+  Lemma mapM_v_total vis ts :
+    Forall (fun t => exists n u, rchain_v n vis t = Some u) ts -> exists n us, mapM (rchain_v n vis) ts = Some us.
+  Proof.
+    induction 1 as [|x r [n [u Hx]] Hr [m [us IH]]]; [exists 0, []; reflexivity|].
+    exists (Nat.max n m), (u :: us). simpl.
+    rewrite (rchain_v_mono_le n (Nat.max n m) vis x u (Nat.le_max_l _ _) Hx).
+    assert (E: mapM (rchain_v (Nat.max n m) vis) r = Some us).
+    { revert IH. apply mapM_mono. apply Forall_forall. intros y _ w. apply rchain_v_mono_le. apply Nat.le_max_r. }
+    rewrite E. reflexivity.
+  Qed.
+
+  (* one level below a position, for a fixed path: if every type resolves under vis, rdesc does *)
+  Lemma rdesc_v_total vis : (forall t, exists n u, rchain_v n vis t = Some u) ->
+    forall t, exists n u, rdesc (rchain_v n vis) t = Some u.
+  Proof.
+    intros H t. destruct t;
+      try (exists 0; eexists; reflexivity);
+      try (destruct (H t) as [n [u Hn]]; exists n; eexists; cbn [rdesc]; rewrite Hn; reflexivity);
+      try (destruct (mapM_v_total vis ts (proj2 (Forall_forall _ _) (fun x _ => H x))) as [n [us Hn]];
+           exists n; eexists; cbn [rdesc]; rewrite Hn; reflexivity).
+    destruct (H t1) as [n1 [u1 H1]]. destruct (H t2) as [n2 [u2 H2]].
+    exists (Nat.max n1 n2); eexists. cbn [rdesc].
+    rewrite (rchain_v_mono_le n1 _ _ _ _ (Nat.le_max_l _ _) H1), (rchain_v_mono_le n2 _ _ _ _ (Nat.le_max_r _ _) H2). reflexivity.
+  Qed.
+
+  Theorem rchain_v_total_aux m : forall vis, unvisited vis < m -> forall t, exists n u, rchain_v n vis t = Some u.
+  Proof.
+    induction m as [|m IHm]; intros vis Hm; [lia|].
+    assert (Hnext: forall k, In k allkeys -> smem k vis = false -> forall t, exists n u, rchain_v n (k :: vis) t = Some u).
+    { intros k Hin Hs. apply IHm. assert (D := unvisited_decr k vis Hin Hs). lia. }
+    intros t.
+    induction t using ty_ind';
+      (match goal with |- exists n u, rchain_v n vis ?t0 = Some u =>
+         destruct (table_ov_v vis t0) as [[k o]|] eqn:Et;
+         [destruct (table_ov_v_key _ _ _ _ Et) as [Hin Hs];
+          destruct o as [|b|[t'|]|];
+          [ | exists 1, b; rewrite rchain_v_S, Et; reflexivity
+            | destruct (ty_same t' t0) eqn:Es;
+              [destruct (rdesc_v_total (k :: vis) (Hnext k Hin Hs) t0) as [fn [fu Hfn]]; exists (S fn), fu; rewrite rchain_v_S, Et, Es; exact Hfn
+              |destruct (Hnext k Hin Hs t') as [fn [fu Hfn]]; exists (S fn), fu; rewrite rchain_v_S, Et, Es; exact Hfn]
+            | destruct (Hnext k Hin Hs TAny) as [fn [fu Hfn]]; exists (S fn), fu; rewrite rchain_v_S, Et; exact Hfn
+            | ]
+         |] end);
+      try (eexists 1, _; rewrite rchain_v_S, Et; reflexivity);
+      try (destruct IHt as [n [u Hn]]; eexists (S n), _; rewrite rchain_v_S, Et; cbn [rdesc]; rewrite Hn; reflexivity);
+      try (destruct (mapM_v_total vis _ H) as [n [us Hn]]; eexists (S n), _; rewrite rchain_v_S, Et; cbn [rdesc]; rewrite Hn; reflexivity);
+      try (destruct IHt1 as [n1 [u1 H1]]; destruct IHt2 as [n2 [u2 H2]];
+           eexists (S (Nat.max n1 n2)), _; rewrite rchain_v_S, Et; cbn [rdesc];
+           rewrite (rchain_v_mono_le n1 _ _ _ _ (Nat.le_max_l _ _) H1), (rchain_v_mono_le n2 _ _ _ _ (Nat.le_max_r _ _) H2); reflexivity).
+  Qed.
+
+  Theorem rchain_v_total : forall vis t, exists n u, rchain_v n vis t = Some u.
+  Proof. intros vis t. exact (rchain_v_total_aux (S (unvisited vis)) vis (Nat.lt_succ_diag_r _) t). Qed.
+End ChainV.
+
 (* ---- Instance.fields() with the chain: the field-level option once, then the tables on the replacement ---- *)
 Definition resolve_field_chain (n: nat) (dial conf: list (string * ov)) (r: rfld) : option ty :=
   match first_ser [r.(r_ser); r.(r_strat)] with
@@ -233,10 +396,10 @@ Definition resolve_field_chain (n: nat) (dial conf: list (string * ov)) (r: rfld
       (* under Final[..] the instance type is the Final form, never the replacement type itself: always looked up again *)
       match (match o, r.(r_final) with ORet (Some t'), true => Again t' | _, _ => step_of (Some o) base end) with
       | Final b => Some (wrap b)
-      | Again t' => option_map wrap (rchain dial conf n t')      (* _field_override_applied: only the tables from here on *)
-      | Stay => option_map wrap (rdesc (rchain dial conf n) base)  (* t' is the field type: the creators run on it *)
+      | Again t' => option_map wrap (rchain_v dial conf n [] t')      (* _field_override_applied: only the tables from here on; _overridden_types starts empty *)
+      | Stay => option_map wrap (rdesc (rchain_v dial conf n []) base)  (* t' is the field type: the creators run on it *)
       end
-  | None => rchain dial conf n r.(r_ty)
+  | None => rchain_v dial conf n [] r.(r_ty)
   end.
 
 Definition digest_field_chain (n: nat) (aliases: list (string * string)) (omit_none: bool) (dial conf: list (string * ov)) (r: rfld)
@@ -299,5 +462,8 @@ Example chain_nonvacuous :
                   mkfld "r" (TTuple [TBool; TStr]) true None None; mkfld "s" TFloat true None None; mkfld "t" TAny true None None])]
   /\ chain_ok [("Pt", ORet (Some TInt))] [("int", ORet (Some (TList TStr))); ("list", ORet (Some TBool)); ("float", ORet (Some TFloat))] 4 = true
   /\ tab_flat EC = false
-  /\ chain_ok [] conf_cyc1 50 = false /\ chain_ok [] conf_cyc2 50 = false.
+  /\ chain_ok [] conf_cyc1 50 = false /\ chain_ok [] conf_cyc2 50 = false
+  (* with _overridden_types the tables that lead back stop at the second visit of a key *)
+  /\ rchain_v [] conf_cyc1 6 [] TInt = Some (TList TInt) /\ rchain_v [] conf_cyc1 6 [] (TDict TInt) = Some (TDict (TList TInt))
+  /\ rchain_v [] conf_cyc2 6 [] TInt = Some TInt /\ rchain_v [] conf_cyc2 6 [] TStr = Some TStr.
 Proof. repeat split; vm_compute; reflexivity. Qed.
